@@ -9,6 +9,8 @@
         land pq0|fib0|fib1 <mat>          landmark_matrix_fixed (the CURRENT source, f[landmarks[k]])
         landold fib0 <mat>                landmark_matrix (source before fix F4, f[k])
         sp <mat>, landsp <mat>            Bellman-Ford specification
+        full fibc <mat>, land fibc <mat>  Fibonacci flavour over the CONCRETE heap model of C16
+        trace fibc <n> 2 u v u v ...      its distance-callback calls (one thread), ltrace fibc likewise
    C <graph> F <N*N obs> [O <nl*N obs>]   spec decision procedures on OBSERVED matrices
         (obs = integer or "inf"):  "full ok|fail", "land ok|fail"
    R <graph> S <src> P <0|1> <fl>          one row (row_fl fl ... src src): "row <1 x N mat>"
@@ -66,6 +68,12 @@ let out tag r =
   Buffer.add_string b tag; Buffer.add_char b ' '; show_mat b r;
   print_string (Buffer.contents b); print_newline ()
 
+let out_trace tag (t : (nat * nat) list) =
+  let b = Buffer.create 1024 in
+  Buffer.add_string b (Printf.sprintf "%s %d 2" tag (List.length t));
+  List.iter (fun (u, v) -> Buffer.add_string b (Printf.sprintf " %d %d" (int_of_nat u) (int_of_nat v))) t;
+  print_string (Buffer.contents b); print_newline ()
+
 let show_qmat tag (m : qc list list) =
   let b = Buffer.create 1024 in
   let r = List.length m and c = (match m with [] -> 0 | x :: _ -> List.length x) in
@@ -93,12 +101,16 @@ let handle line =
           out "full fib0" (full_matrix FIB g.nbrs w pick_first_min nn);
           out "full fib1" (full_matrix FIB g.nbrs w pick_last_min nn);
           out "sp" (DOk (sp_matrix g.nbrs w nn));
+          out "full fibc" (full_matrix_fibc g.nbrs w nn);
+          out_trace "trace fibc" (full_trace_fibc g.nbrs w nn);
           if g.lm <> [] then begin
             out "land pq0" (landmark_matrix_fixed PQ g.nbrs w pick_first_min nn g.lm);
             out "land fib0" (landmark_matrix_fixed FIB g.nbrs w pick_first_min nn g.lm);
             out "land fib1" (landmark_matrix_fixed FIB g.nbrs w pick_last_min nn g.lm);
             out "landold fib0" (landmark_matrix FIB g.nbrs w pick_first_min nn g.lm);
-            out "landsp" (DOk (sp_landmarks g.nbrs w nn g.lm))
+            out "landsp" (DOk (sp_landmarks g.nbrs w nn g.lm));
+            out "land fibc" (landmark_matrix_fibc g.nbrs w nn g.lm);
+            out_trace "ltrace fibc" (landmark_trace_fibc g.nbrs w nn g.lm)
           end
         | "C" ->
           let g = read_graph () in
